@@ -20,9 +20,17 @@
    [run_fw_t s b cs]  firmware with FOLDED len(): setup statements s, then one pass of the (gated) body b per value of cs
    [run_py_t s b cs]  CPython: len() is the length the list has at that moment
    [len_ok s b]       the guard: single-owner shapes, only reads under run-time conditions, a constant remove hits the
-                      copy, the copies have the same lengths after the loop body as before it *)
+                      copy, the copies have the same lengths after the loop body as before it; a call h(x) of a function
+                      `def h(P): return P[len(Y) + k]` only in the main loop, Y the parameter or a global whose copy has at
+                      the call the length it had at the FIRST call of the function (where its list variant is parsed)
+   [fn_env td ps]     the constant environment of a function body: the copies [td] of the place where the function is
+                      parsed (its first call), every parameter unfolded
+   [frozen_ok s bs]   the guard of read-only sharing: lists assigned from a call that returns one of its list arguments
+                      (`x = sel(y, z, c)`) or from another list (`x = y`) are deep copies in the firmware and aliases in
+                      CPython; the names involved are only read
+   [p_named pst]      CPython's live list data counted per NAME (an object bound to two names counts twice) *)
 From Coq Require Import ZArith List Bool.
-From RV Require Import Device.DList Device.DListProg Device.DListLen Proofs.DListP Proofs.DListProgP Proofs.C09P Proofs.DListLenP.
+From RV Require Import Device.DList Device.DListProg Device.DListLen Proofs.DListP Proofs.DListProgP Proofs.C09P Proofs.DListLenP Proofs.DListShareP.
 Import ListNotations.
 
 (* ============================================================== the helper templates *)
@@ -369,3 +377,101 @@ Theorem C09_stale_len_pop_refuted : exists cs pst,
   run_fw_t stale_pop_setup stale_pop_body cs = Unsafe OutOfBounds.
 Proof. exact stale_pop_oob. Qed.
 Print Assumptions C09_stale_len_pop_refuted.
+
+(* ============================================================== lists returned by functions: read-only sharing *)
+
+(* `x = sel(y, z, c)` / `x = ident(y)` / `x = y` into a DECLARED list x (x different from the source): the firmware clones
+   (__redu_list_assign has one overload, `const __redu_list<T> &`: a temporary shallow copy of y is copied element by
+   element, never adopted), CPython aliases.  Inside [frozen_ok] - the names that take part in such assignments are
+   afterwards only read or re-assigned among each other, everything else is single-owner - for EVERY history (pass k
+   runs the statements the run-time values of that pass select, in particular a different source list in every pass):
+   when CPython raises no exception the firmware is memory-safe (no use after free, no double free, no out-of-bounds
+   index), every name owns a distinct live block and nothing else is live, and the heap holds CPython's live data
+   counted per name. *)
+Theorem C09_shared_result_python_safe_partial : forall setup bodies pst,
+  frozen_ok setup bodies = true -> run_py_seq setup bodies = POk pst ->
+  exists st, run_fw_seq setup bodies = Safe st /\ wf_heap st /\ tight st /\ f_live_cells st = p_named pst.
+Proof. exact frozen_share_py. Qed.
+Print Assumptions C09_shared_result_python_safe_partial.
+
+(* the leak clause: live data constant from one pass to the next - counted per name - => heap usage constant *)
+Theorem C09_shared_result_no_leak_partial : forall setup bodies b p1 p2,
+  frozen_ok setup (bodies ++ [b]) = true ->
+  run_py_seq setup bodies = POk p1 -> run_py_seq setup (bodies ++ [b]) = POk p2 -> p_named p1 = p_named p2 ->
+  exists s1 s2, run_fw_seq setup bodies = Safe s1 /\ run_fw_seq setup (bodies ++ [b]) = Safe s2 /\
+                f_live_cells s1 = f_live_cells s2.
+Proof. exact frozen_share_no_leak. Qed.
+Print Assumptions C09_shared_result_no_leak_partial.
+
+(* the demo of the class: active = sel(low, high, c) with alternating readings, three reads per pass: inside the guard
+   (and outside single_owner), CPython runs 4 passes, live data 6 elements, 9 counted per name *)
+Example C09_shared_result_nonvacuous :
+  (frozen_ok share_setup share_bodies = true /\ single_owner_seq share_setup share_bodies = false) /\
+  exists pst, run_py_seq share_setup share_bodies = POk pst /\ p_live pst = 6 /\ p_named pst = 9.
+Proof. exact (conj share_guard share_python). Qed.
+Print Assumptions C09_shared_result_nonvacuous.
+
+(* the guard on `x = f(.., y, ..)` spelled out, and what "only read" means *)
+Theorem C09_shared_result_guard : forall decl fz x y, use_ok3 decl fz (LAssignRet x y) = true ->
+  x <> y /\ In x decl /\ In y decl /\ In x fz /\ In y fz.
+Proof. exact use_ok3_ret_spec. Qed.
+Print Assumptions C09_shared_result_guard.
+
+Theorem C09_shared_names_read_only : forall decl fz s x, use_ok3 decl fz s = true -> In x fz ->
+  match s with
+  | LAppend z _ | LRemove z _ | LSet z _ _ | LAppendRef z _ _ | LRemoveRef z _ _ => z <> x
+  | _ => True
+  end.
+Proof. exact use_ok3_frozen_not_mutated. Qed.
+Print Assumptions C09_shared_names_read_only.
+
+(* refuted at full strength (statement counts live data per OBJECT): low = [1, 2, 3]; high = [4, 5]; active = [0, 0, 0]
+   while True: active = sel(low, high, c)   readings 2, 0 - inside the guard, memory-safe, CPython's live data is 5
+   elements after both passes, the firmware's heap holds 8 cells after the first and 7 after the second *)
+Theorem C09_shared_result_heap_varies_refuted :
+  frozen_ok vary_setup vary_bodies = true /\
+  exists p1 p2 s1 s2,
+    run_py_seq vary_setup [[LAssignRet 2 0]%Z] = POk p1 /\ run_py_seq vary_setup vary_bodies = POk p2 /\
+    p_live p1 = p_live p2 /\
+    run_fw_seq vary_setup [[LAssignRet 2 0]%Z] = Safe s1 /\ run_fw_seq vary_setup vary_bodies = Safe s2 /\
+    f_live_cells s1 = 8 /\ f_live_cells s2 = 7.
+Proof. exact share_multiplicity. Qed.
+Print Assumptions C09_shared_result_heap_varies_refuted.
+
+(* ============================================================== len() inside function bodies *)
+
+(* the constant environment of a function body (parser.py _parse_function): a parameter is never a parse-time constant,
+   whatever the enclosing environment binds its name to ... *)
+Theorem C09_fn_param_never_folded : forall td params p, In p params -> t_cur (fn_env td params) p = None.
+Proof. exact fn_env_param. Qed.
+Print Assumptions C09_fn_param_never_folded.
+
+(* ... a global that no parameter shadows keeps the copy of the place where the function is parsed ... *)
+Theorem C09_fn_global_keeps_def_copy : forall td params y, ~ In y params -> t_cur (fn_env td params) y = t_cur td y.
+Proof. exact fn_env_global. Qed.
+Print Assumptions C09_fn_global_keeps_def_copy.
+
+(* ... hence `def h(P): return P[len(P) + k]` evaluates the run-time length of its ARGUMENT, also when P carries the name
+   of a global list with a parse-time copy of another length *)
+Theorem C09_fn_param_len_is_argument_len : forall fe t st x p sg k,
+  s_len fe t st (TCallLen x p p sg k) = Z.of_nat (list_len (f_lookup st x)).
+Proof. exact param_len_unfolded. Qed.
+Print Assumptions C09_fn_param_len_is_argument_len.
+
+(* calls of such functions are inside C09_len_fold_safe_partial; witness: the parameter shadows a = [1, 2, 3] and the
+   function is called with the shorter list b = [7] *)
+Example C09_fn_shadow_nonvacuous :
+  len_ok shadow_ok_setup shadow_ok_body = true /\
+  exists pst, run_py_t shadow_ok_setup shadow_ok_body [0; 0]%Z = POk pst /\ p_live pst = 4.
+Proof. exact (conj shadow_ok_guard shadow_ok_python). Qed.
+Print Assumptions C09_fn_shadow_nonvacuous.
+
+(* refuted outside the guard: a = [1, 2, 3];  def h(P): return P[len(a) - 1]
+   while True: r = h(a); mon.write(r); a.remove(c); r = h(a); mon.write(r); a.append(c)   c = 2
+   - len(a) in the function body is folded where the function's list variant is parsed, at its FIRST call (3); the list
+   has 2 elements at the second call *)
+Theorem C09_stale_len_first_call_refuted : exists cs pst,
+  run_py_t stale_def_setup stale_def_body cs = POk pst /\
+  run_fw_t stale_def_setup stale_def_body cs = Unsafe OutOfBounds.
+Proof. exact stale_def_oob. Qed.
+Print Assumptions C09_stale_len_first_call_refuted.
